@@ -43,6 +43,7 @@ def describe(tier):
             f"{[s.decode() for s in SEGS]} x query x fragment x 2 userinfo x 2 hosts x 2 ports x 2 embeddings. Windows paths: {len(WIN_PREFIX)} prefixes x every "
             f"sequence of <= {WIN_LEN[tier]} segments over {[s.decode() for s in WIN_SEGS]} x {len(WIN_FILES)} file names x 3 embeddings. Each input is given to "
             "find_urls / find_windows_path; EVERY returned node is checked: the expected part children are recomputed from the node's VALUE with an "
+            "numeric hosts: EVERY host of 1-3 (thorough 4) dot-separated parts over 20 numbers at the range boundaries 2^8 / 2^16 / 2^20 / 2^24 / 2^32 in decimal, hex and octal, as URL host and as UNC host; "
             "independent component splitter, percent decoder, dot-segment remover, inet_aton parser and Windows path normaliser, and compared "
             "(type, value, label, span, order). The same oracle runs on every network.url / windows.*path node of every scan of the net/winpath/mix "
             "scan-level families. states = distinct inputs, transitions = nodes checked, traces = decoder invocations compared. "
@@ -59,10 +60,16 @@ def describe(tier):
     }
 
 
+# numeric host forms a / a.b / a.b.c / a.b.c.d: every part at the range boundaries of every form (2^8, 2^16, 2^20, 2^24, 2^32) in decimal, hex and octal
+NUM_PARTS = [b"0", b"1", b"255", b"256", b"65535", b"65536", b"70000", b"1048575", b"1048576", b"16777215", b"16777216", b"4294967295", b"4294967296",
+             b"0xff", b"0x100", b"0xFFFF", b"0x10000", b"0377", b"0400", b"08"]
+
+
 def plan(tier, seed):
     units = [("urlA", tier, i) for i in range(len(SCHEMES) * len(USERINFO))]
     units += [("urlB", tier, i) for i in range(len(SEGS) + 1)]
     units += [("win", tier, i) for i in range(len(WIN_PREFIX))] + [("tld-config",)]
+    units += [("numhosts", tier, i) for i in range(len(NUM_PARTS))]
     units += [("stream", u) for u in streams.plan(tier, fams=STREAM_FAMS)]
     units += core.interp_axis([("urlB", tier, len(SEGS)), ("urlB", tier, 1), ("win", tier, 0)])
     return units
@@ -308,6 +315,22 @@ def run_unit(unit, rec):
             data = embed(url, e)
             run_url(rec, data, {"kind": "url", "data": data})
         rec.sample({"family": "url-authority", "last": data})
+    elif kind == "numhosts":
+        first = NUM_PARTS[unit[2]]
+        data = b""
+        maxparts = 3 if unit[1] == "quick" else 4
+        for k in range(0, maxparts):
+            for rest in itertools.product(NUM_PARTS, repeat=k):
+                host = b".".join((first,) + rest)
+                data = b"see http://" + host + b"/a.exe now"
+                run_url(rec, data, {"kind": "url", "data": data})
+                data = b"x \\\\" + host + b"\\share\\tool.exe y"
+                run_win(rec, data, {"kind": "win", "data": data})
+        for rest in itertools.product((b"0", b"255", b"256", b"0x1", b"010"), repeat=3) if maxparts == 3 else ():
+            host = b".".join((first,) + rest)  # quick: the four-part form over a smaller menu
+            data = b"see http://" + host + b"/a.exe now"
+            run_url(rec, data, {"kind": "url", "data": data})
+        rec.sample({"family": "numeric-hosts", "first_part": first, "last": data})
     elif kind == "urlB":
         first = unit[2]
         L = PATH_LEN[unit[1]]
